@@ -68,7 +68,7 @@ class Gen:
             if not base:
                 return [[]]
             out = [[]]
-            out += [[b] for b in base[:8]]
+            out += [[b] for b in base[:24]]
             for a, b in itertools.islice(itertools.product(base[:5], repeat=2), 12):
                 out.append([dc(a), dc(b)])
             for _ in range(4):
@@ -137,12 +137,13 @@ class Gen:
         if any(not p for p in pools.values()):
             return []   # not constructible from the declared schema: never hand out half-built objects
         out = []
-        n = 10 if depth == 0 else (8 if depth < 2 else (4 if depth < 3 else 2))
+        n = 24 if depth < 2 else (4 if depth < 3 else 2)
         for i in range(n):
             o = cls.__new__(cls)
             for j, f in enumerate(names):
                 p = pools[f]
-                v = p[(i * (j + 1) + j) % len(p)] if i < 3 else self.rnd.choice(p)
+                # the first len(INTS) objects walk through every boundary value of every integer field
+                v = p[(i + j * 7) % len(p)] if i < len(INTS) else self.rnd.choice(p)
                 object.__setattr__(o, f, dc(v))
             out.append(o)
         return out
